@@ -196,6 +196,9 @@ def units(tier):
     return U
 
 
+# checks whose proof units establish the callee contracts applied here (re-verified by this check, see main.dependency_units)
+DEPENDENCIES = ['C04', 'C05']
+
 META = {
     "level": "proof",
     "bounds": {"device-type lists": "every ascending list over 0..253 of length 0..8 (length enumerated, values symbolic)",
